@@ -6,6 +6,7 @@ mod c19;
 mod canon;
 mod wrap;
 mod common;
+mod cursor;
 mod o_text;
 mod tab;
 mod tokstream;
@@ -25,9 +26,13 @@ fn main() {
                 "C01" => vec![o_text::c01(&c, &tier)],
                 "C03" => c03::oracle(seed, &tier),
                 "C05" => vec![o_text::c05(&c, &tier)],
+                "C07" => vec![o_text::c07(&c, &tier)],
                 "C08" => c08::oracle(&c, seed, &tier),
+                "C10" => vec![o_text::c10(&c, &tier)],
                 "C11" => vec![o_text::c11(&c, &tier)],
                 "C13" => c13::oracle(&c, seed, &tier),
+                "C14" => o_text::c14(&c, &tier, seed),
+                "C15" => vec![o_text::c15(&c, &tier)],
                 "C19" => c19::oracle(&c, seed, &tier),
                 _ => { eprintln!("no oracle for {p}"); std::process::exit(2) }
             };
@@ -38,6 +43,7 @@ fn main() {
             std::fs::create_dir_all(dir).unwrap();
             let rep = match name {
                 "kw" => c08::corr(dir, seed, &tier),
+                "cursor" => cursor::corr(dir, seed, &tier),
                 "lists" => c13::corr(dir, seed, &tier),
                 "prec" => c04::corr_prec(dir, seed, &tier),
                 "chains" => c04::corr_chains(dir, seed, &tier),
